@@ -87,6 +87,18 @@ def _load(modname):
     return importlib.import_module(modname)
 
 
+def _execute(mod, h):
+    """mod.execute under a whole-history wall-clock guard for modules that have no per-op guards of their own."""
+    wall = getattr(mod, "HISTORY_WALL", None)
+    if not wall:
+        return mod.execute(h)
+    try:
+        with op_timeout(wall):
+            return mod.execute(h)
+    except OpTimeout:
+        return {"violations": [{"class": "hang", "op": None, "detail": "the history did not finish within %d s (normal: milliseconds)" % wall}], "counters": {"op_timeout": 1}, "nontrivial": False, "digest": "hang"}
+
+
 def batch_entry(modname, cache, pkgkind, seed, frm, count, progress):
     p = os.path.join(cache, pkgkind)
     if p not in sys.path:
@@ -104,7 +116,7 @@ def batch_entry(modname, cache, pkgkind, seed, frm, count, progress):
         h = mod.gen_history(rng)
         if pfd is not None:
             os.pwrite(pfd, b"%12d" % i, 0)
-        r = mod.execute(h)
+        r = _execute(mod, h)
         if hasattr(mod, "aux_digest"):
             res.setdefault("aux", {})[i] = mod.aux_digest(h)
         res["runs"] += 1
@@ -163,7 +175,7 @@ def exec_entry(modname, cache, pkgkind, history):
     if p not in sys.path:
         sys.path.insert(0, p)
     mod = _load(modname)
-    return mod.execute(history)
+    return _execute(mod, history)
 
 
 def exec_many_entry(modname, cache, pkgkind, histories, vclass):
@@ -174,7 +186,7 @@ def exec_many_entry(modname, cache, pkgkind, histories, vclass):
     mod = _load(modname)
     for k, h in enumerate(histories):
         try:
-            r = mod.execute(h)
+            r = _execute(mod, h)
         except Exception:  # a malformed candidate is simply not a reproduction
             continue
         if any(v["class"] == vclass for v in r["violations"]):
